@@ -1224,6 +1224,36 @@ func (t *Tokenizer) handleEscapeSequence(buf *bytes.Buffer) error {
 		buf.WriteRune('\r')
 	case 't':
 		buf.WriteRune('\t')
+	case 'u':
+		// \uXXXX: four hexadecimal digits
+		if t.pos.Index+size+4 > len(t.input) {
+			return errors.NewError(
+				errors.ErrCodeUnexpectedChar,
+				"incomplete Unicode escape sequence '\\u'",
+				t.getCurrentPosition(),
+			).WithContext(string(t.input), 1)
+		}
+		var value rune
+		for i := 0; i < 4; i++ {
+			ch := t.input[t.pos.Index+size+i]
+			switch {
+			case ch >= '0' && ch <= '9':
+				value = value*16 + rune(ch-'0')
+			case ch >= 'a' && ch <= 'f':
+				value = value*16 + rune(ch-'a') + 10
+			case ch >= 'A' && ch <= 'F':
+				value = value*16 + rune(ch-'A') + 10
+			default:
+				return errors.NewError(
+					errors.ErrCodeUnexpectedChar,
+					"invalid Unicode escape sequence '\\u'",
+					t.getCurrentPosition(),
+				).WithContext(string(t.input), 1)
+			}
+		}
+		buf.WriteRune(value)
+		t.pos.Index += 4
+		t.pos.Column += 4
 	default:
 		return errors.NewError(
 			errors.ErrCodeUnexpectedChar,
